@@ -326,6 +326,12 @@ def draw_real(d):
         return 'inf'
     if r < 16:
         return '-inf'
+    if d.cfg.get('float_reals'):
+        # values exactly representable as Python floats (C17 compares REALs as floats)
+        m = d.int(1, 2 ** 53 - 1) if d.pct(40) else d.int(1, 999)
+        if d.pct(50):
+            m = -m
+        return (m, 2, d.int(-60, 60))
     if d.pct(d.cfg['real10_pct']):
         m = d.int(1, 2 ** 53 - 1) if d.pct(30) else d.int(1, 9999)
         while m % 10 == 0:
